@@ -133,10 +133,16 @@ func ConfigYAML(c scn.Config) string {
 	var b strings.Builder
 	b.WriteString("info:\n  version: 0.9.0\n  description: STGUTG configuration file\n\nconfiguration:\n")
 	w := func(k, v string) { fmt.Fprintf(&b, "  %s: %s\n", k, v) }
-	w("amf_ngap_ip", c.AmfNgapIP)
+	ip := func(v string) string { // an IPv6 literal needs quotes in YAML
+		if strings.Contains(v, ":") {
+			return yamlQuote(v)
+		}
+		return v
+	}
+	w("amf_ngap_ip", ip(c.AmfNgapIP))
 	w("amf_ngap_port", fmt.Sprint(c.AmfNgapPort))
-	w("gnb_gtp_ip", c.GnbGtpIP)
-	w("stg_ngap_ip", c.StgNgapIP)
+	w("gnb_gtp_ip", ip(c.GnbGtpIP))
+	w("stg_ngap_ip", ip(c.StgNgapIP))
 	w("stg_ngap_port", fmt.Sprint(c.StgNgapPort))
 	w("initial_imsi", yamlQuote(c.IMSI))
 	w("mcc", yamlQuote(c.MCC))
